@@ -249,6 +249,9 @@ def main(argv=None):
 
     for ln in lines:
         print(ln)
+    if os.environ.get('VERIF_DEBUG'):
+        for v in agg['violations']:
+            print('  DEBUG', v['mech'], '|', v['msg'][:400])
     print('%s tier=%s seed=%d cases=%d held=%d violated=%d (known %d) inconclusive=%d distinct=%d wall=%.1fs' % (
         pid, args.tier, args.seed, agg['n'], agg['held'], agg['violated'],
         sum(mech_counts[m] for m in mech_counts if m in known_keys), agg['inconclusive'], n_dist, wall))
